@@ -204,7 +204,7 @@ def run_case(h):
     if "e2e" in h:
         return _e2e(h)
     g = h["g"]
-    m, sd = gr.build(g)
+    m, sd = gr.build(g, warm=True)
     if "rand_states" in h:
         rnd = random.Random(h["rand_states"])
         states = gr.reachable_states(rnd, g, sd, 8)
